@@ -1016,8 +1016,9 @@ def fold_delegations(u, unit_name):
             cs = callers.get(g.name, set()) - {g.name}
             if cs and cs <= (former | {n for n in rename}) and (cs & former):
                 cands.append(g)
-        if len(cands) > 1:
-            # several new functions under the same callers: the one with the anchor's return type and leading parameter types
+        if cands:
+            # the anchor under a new name keeps the anchor's return type and leading parameter type (several new functions under
+            # the same callers: the one that does; a single one that does not is something else that the callers now use)
             try:
                 with open(_os.path.join(_os.path.dirname(_os.path.abspath(__file__)), 'known_signatures.json')) as fh:
                     sig = _json.load(fh).get(unit_name, {}).get(name)
